@@ -18,7 +18,7 @@ A format string that has no arm (e.g. after an edit of /repo) does not compile: 
 The arms are NOT read from /repo: they are every keyword of ISO 32000-1 Annex A (the TABLE of units/ops/gen_table.py)
 in each of the operand shapes below, plus the keyword-free shapes used by `write!` and the `Display` impls.
 """
-import os, sys, importlib.util
+import os, re, sys, importlib.util
 
 HERE = os.path.dirname(os.path.abspath(__file__))
 spec = importlib.util.spec_from_file_location('gen_table', os.path.join(HERE, '..', 'ops', 'gen_table.py'))
@@ -92,11 +92,24 @@ def arm(fmt, newline):
     return '    ($f:expr, %s%s) => { { %s wr_done() } };' % (rlit(fmt), params, ' '.join(body))
 
 
+def subst(e, n, from_expr='from'):
+    """table expression over the operand sequence `a` -> the same expression over the operand tokens t0..t{n-1}"""
+    e = re.sub(r'pt_of\(a, (\d+)\)', lambda m: 'Point { x: num_of(t%d), y: num_of(t%d) }' % (int(m.group(1)), int(m.group(1)) + 1), e)
+    e = re.sub(r'\ba\[(\d+)\]', lambda m: 't%d' % int(m.group(1)), e)
+    e = re.sub(r'\ba\.len\(\) >= \d+', 'true', e)
+    e = e.replace('ii is Ok', 'no_ii() is Ok').replace('ii->Ok_0', 'no_ii()->Ok_0')
+    e = e.replace('out.len() == 1', 'true').replace('out[0]', 'ops[%s]' % from_expr)
+    return e
+
+
 def row_facts():
-    """kw_fns.rs: one sink operation per table keyword.  `put_kw_<row>(f)` writes the keyword (body: put_kw) and its
-    VERIFIED postcondition restates row <row> of table_spec.rs for the operands pending at that moment, so that the big
-    function never has to unfold the 73-way `if` chains of the table (it hides them).  The expressions are produced
-    from gen_table.py's TABLE exactly as gen_table.main() produces them; a discrepancy makes the small wrapper fail."""
+    """kw_fns.rs: one sink operation per table keyword.  `put_kw_<row>(f)` writes the keyword (body: put_kw); its
+    VERIFIED postcondition is row <row> of table_spec.rs, pre-digested for the operands pending at that moment:
+    what `row_ok_k(row, operands, last, ops, from, to)` means when the pending operands are exactly t0..t{n-1}
+    (n = the arity the table lists).  The big function hides the table and row_ok_k and only uses these digests, so
+    it never unfolds a 73-way `if` chain nor indexes into a sequence of operands.  The expressions are produced from
+    gen_table.py's TABLE exactly as gen_table.main() produces table_spec.rs, with a[i] replaced by t<i>; a
+    discrepancy makes the small wrapper fail (UNDECIDED), never the property."""
     o = ['// GENERATED by units/serops/gen_fmt.py from units/ops/gen_table.py TABLE. Do not edit by hand.']
     for i, (kw, g, sig, ops, last) in enumerate(gt.TABLE, 1):
         conds = []
@@ -111,22 +124,39 @@ def row_facts():
             conds.append('(' + extra + ')')
         pre = ' && '.join(conds) if conds else 'true'
         n = -1 if (sig in ('*',) or kw in gt.ANY_OPERANDS) else (0 if sig == '!' else len(sig))
-        facts = ['group_k(%d) != 0' % i, 'arity_k(%d) == %d' % (i, n),
-                 'pre_k(%d, a, no_ii()) == (%s)' % (i, pre.replace('ii is Ok', 'no_ii() is Ok').replace('ii->Ok_0', 'no_ii()->Ok_0')),
-                 'is_relational_k(%d) == %s' % (i, 'true' if kw in gt.RELATIONAL else 'false')]
-        if kw in gt.RELATIONAL:
-            facts.append('(forall|out: Seq<Op>| #[trigger] rel_relational_k(%d, a, out) == (%s))' % (i, gt.RELATIONAL[kw][1]))
+        rel = kw in gt.RELATIONAL
+        if rel:
+            c = 1
+            body = [gt.RELATIONAL[kw][1]]
         else:
             ops2 = ops if ops is not None else gt.SPECIAL[kw][1]
-            e = 'seq![%s]' % ', '.join(gt.expand(x) for x in ops2) if ops2 else 'Seq::<Op>::empty()'
-            e = e.replace('ii->Ok_0', 'no_ii()->Ok_0')
-            facts.append('expected_k(%d, a, last, no_ii()) == %s' % (i, e))
-        facts.append('new_last_k(%d, a, last) == %s' % (i, gt.expand(last) if last else 'last'))
+            c = len(ops2)
+            body = ['op_same(ops[from + %d], %s)' % (j, gt.expand(x)) if j else 'op_same(ops[from], %s)' % gt.expand(x) for j, x in enumerate(ops2)]
+        nl = gt.expand(last) if last else 'last'
+        if n >= 0:
+            # fixed arity: digest over the tokens t0..t{n-1} of the pending list l (exactly n elements)
+            lets = []
+            cur = 'l'
+            shape = []
+            for j in range(n - 1, -1, -1):
+                shape.append('%s is Snoc' % cur)
+                lets.append('let t%d = tl_last(%s);' % (j, cur))
+                cur = 'tl_init(%s)' % cur
+            shape.append('%s is Nil' % cur)
+            cond = ' && '.join(['0 <= from', 'to == from + %d' % c, 'to <= ops.len()', '(%s)' % subst(pre, n)] + ['(%s)' % subst(b, n) for b in body])
+            ens = ['(%s) ==> ({ %s' % (' && '.join(shape), ' '.join(lets)),
+                   '    row_count_k(%d, a, last) == %d && new_last_k(%d, a, last) == %s' % (i, c, i, subst(nl, n)),
+                   '    && (forall|ops: Seq<Op>, from: int, to: int| #[trigger] row_ok_k(%d, a, last, ops, from, to) == (%s)) })' % (i, cond)]
+        else:
+            # variable arity: the operands stay a sequence
+            cond = ' && '.join(['0 <= from', 'to == from + %d' % c, 'to <= ops.len()', '(%s)' % subst(pre, 0)] + ['(%s)' % subst(b, 0) for b in body])
+            ens = ['(row_count_k(%d, a, last) == %d && new_last_k(%d, a, last) == %s' % (i, c, i, nl),
+                   '    && (forall|ops: Seq<Op>, from: int, to: int| #[trigger] row_ok_k(%d, a, last, ops, from, to) == (%s)))' % (i, cond)]
         o.append('fn put_kw_%d(f: &mut Out)   // %s' % (i, kw))
         o.append('    ensures final(f).st() == st_kw(old(f).st(), %s@), kw(%s@) == %d,' % (gt.lit(kw), gt.lit(kw), i))
-        o.append('        ({ let a = old(f).st().pend; let last = old(f).st().last;')
-        o.append('           %s })' % '\n           && '.join(facts))
-        o.append('{ proof { lemma_kw_%d(); } put_kw(f, %s); }' % (i - 1, gt.lit(kw)))
+        o.append('        ({ let l = old(f).st().pend; let a = seq_of(l); let last = old(f).st().last;')
+        o.append('           %s })' % '\n           '.join(ens))
+        o.append('{ proof { lemma_kw_%d(); reveal(row_ok_k); reveal(row_count_k); reveal_with_fuel(seq_of, 8); } put_kw(f, %s); }' % (i - 1, gt.lit(kw)))
     with open(os.path.join(HERE, 'kw_fns.rs'), 'w') as fh:
         fh.write('\n'.join(o) + '\n')
     print('wrote kw_fns.rs: %d keyword writers' % len(gt.TABLE))
